@@ -302,7 +302,14 @@ func ruleTranslateOrder(r *Report) {
 		}
 	}
 	r.Check(bitsOK && len(opens) == 2, rule, "translateIndex/new-index-uses-requested-bits", fn.Pos(), "the new index is opened with the requested bit size", "the new index is not opened with the requested bit size parameter")
-	r.Min(rule, 6)
+	// both opens pass the requested index file size, so that a file-size
+	// mismatch is still refused when the bit size differs too
+	for _, o := range opens {
+		_, isP := o.Common().Args[4].(*ssa.Parameter)
+		r.Check(isP, rule, "translateIndex/opens-with-requested-file-size", o.Pos(), "opened with the requested index file size (a mismatch is refused by index.Open)",
+			"an index is opened inside translateIndex without the requested file-size limit (0 = 'whatever is stored'): reopening with a different bit size AND a different file size is then not refused with ErrIndexWrongFileSize but silently rebuilt under the new limit")
+	}
+	r.Min(rule, 8)
 }
 
 func ruleTranslateAll(r *Report) {
@@ -386,8 +393,45 @@ func iteratorIndex(fn *ssa.Function) ssa.Value {
 	return nil
 }
 
+// ruleStripWholeBytes: the bucket prefix stripped from a key covers only bytes
+// that the bucket bits cover completely.
+func ruleStripWholeBytes(r *Report) {
+	const rule = "strip-whole-bytes"
+	fn := r.need(rule, "I", "stripBucketPrefix")
+	if fn == nil {
+		return
+	}
+	n := 0
+	eachInstr(fn, func(in ssa.Instruction) {
+		sl, ok := in.(*ssa.Slice)
+		if !ok || sl.Low == nil {
+			return
+		}
+		if _, isP := sl.X.(*ssa.Parameter); !isP {
+			return
+		}
+		n++
+		v := stripIntConv(sl.Low)
+		ok2 := false
+		if bo, isB := v.(*ssa.BinOp); isB {
+			_, xIsParam := stripIntConv(bo.X).(*ssa.Parameter)
+			k, isC := intConst(stripIntConv(bo.Y))
+			if xIsParam && isC && ((bo.Op == token.QUO && k == 8) || (bo.Op == token.SHR && k == 3)) {
+				ok2 = true
+			}
+		}
+		r.Check(ok2, rule, "stripBucketPrefix/whole-bytes", sl.Pos(), "strips bits/8 bytes: only bytes fully covered by the bucket bits",
+			"the number of key bytes stripped is not bits/8 (whole bytes only): for bit sizes that are not a multiple of 8 the partially covered byte is dropped, so keys of one bucket that differ only in that byte's high bits collapse to the same in-bucket key — the second one is silently lost when re-bucketing or on later Puts")
+	})
+	if n == 0 {
+		r.Undecided(rule, "stripBucketPrefix: no slicing of the key found")
+	}
+	r.Min(rule, 1)
+}
+
 func init() {
 	register("C09", func(r *Report) {
+		ruleStripWholeBytes(r)
 		ruleTranslateTrigger(r)
 		ruleRejectBeforeMutate(r)
 		ruleTranslateOrder(r)
